@@ -391,7 +391,7 @@ def splice_loops_and_hints(card, fid, body):
     hinted = []
     for kind, text in segs:
         hinted.append([kind, text])
-    for (hname, where, anchor, occ, htext) in card.hints:
+    for (hname, where, anchor, occ, htext) in sorted(card.hints, key=lambda h_: h_[1] == 'tail'):
         k = 0
         done = False
         if where == 'loopend':
@@ -407,6 +407,68 @@ def splice_loops_and_hints(card, fid, body):
                     break
             else:
                 raise GenError('%s: loopend hint needs a //@loop %d contract' % (fid, n))
+            continue
+        if where == 'tail':
+            # proof text between the last statement and the tail expression: `let __tail = <tail>; <hint> __tail`
+            seg = hinted[-1]
+            p1 = seg[1].rindex('}')
+            p0 = hinted[0][1].index('{') if len(hinted) == 1 else -1
+            depth = 0
+            last = p0 + 1 if p0 >= 0 else 0
+            i = last
+            base = 1 if p0 >= 0 else None
+            if base is None:
+                # the last segment starts inside the body: depth relative to its start, statements end at depth 0 or 1
+                raise GenError('%s: tail hint in a function with loop contracts is not supported' % fid)
+            depth = 1
+            while i < p1:
+                n2 = skip_literal(seg[1], i)
+                if n2 != i:
+                    i = n2
+                    continue
+                c = seg[1][i]
+                if c in '{([':
+                    depth += 1
+                elif c in '})]':
+                    depth -= 1
+                elif c == ';' and depth == 1:
+                    last = i + 1
+                i += 1
+            tail = seg[1][last:p1]
+            # hints already placed in front of the tail expression stay in front of it
+            lead = re.match(r'(?:\s|\x00HINT:\w+\x00)*', tail).group(0)
+            last += len(lead)
+            tail = tail[len(lead):]
+            mark = '\n\x00HINT:%s\x00\n' % hname
+            if tail.strip() == '':
+                seg[1] = seg[1][:p1] + mark + seg[1][p1:]
+            else:
+                seg[1] = seg[1][:last] + '\n        let __tail = ' + tail.strip() + ';' + mark + '        __tail\n' + seg[1][p1:]
+            continue
+        if where == 'onerr':
+            # proof text on the error exit that rule X22 generated for the `?` of the statement containing the anchor
+            pat = 'Err(__e) => return Err(From::from(__e))'
+            for seg in hinted:
+                if seg[0] != 'body':
+                    continue
+                pos = 0
+                while True:
+                    p = seg[1].find(anchor, pos)
+                    if p < 0:
+                        break
+                    if k == occ:
+                        q = seg[1].find(pat, p)
+                        if q < 0:
+                            raise AnchorLost('%s: hint %s: no `?` exit after anchor %r' % (fid, hname, anchor))
+                        seg[1] = seg[1][:q] + 'Err(__e) => {\n\x00HINT:%s\x00\n return Err(From::from(__e)) }' % hname + seg[1][q + len(pat):]
+                        done = True
+                        break
+                    k += 1
+                    pos = p + len(anchor)
+                if done:
+                    break
+            if not done:
+                raise AnchorLost('%s: hint %s anchor %r lost' % (fid, hname, anchor))
             continue
         if where in ('start', 'end'):
             mark = '\n\x00HINT:%s\x00\n' % hname
@@ -588,7 +650,9 @@ def emit_fn(card, repo, out, info, twin=False, assumed_here=False):
                             {'fn': fid, 'part': 'await', 'clause': 'await%s.debt' % md.group(1), 'tags': ['C13', 'C04']})
                     rec.setdefault('awaits', []).append('await%s.debt' % md.group(1))
                 elif ma:
-                    out.add('        assert(%s);' % card.opts['awaitinv'], {'fn': fid, 'part': 'await', 'clause': 'await%s' % ma.group(1), 'tags': ['C13']})
+                    atags = ['C13', 'C01'] if re.search(r'\b[spw]inv\(', card.opts['awaitinv']) else ['C13']
+                    rec['await_tags'] = atags
+                    out.add('        assert(%s);' % card.opts['awaitinv'], {'fn': fid, 'part': 'await', 'clause': 'await%s' % ma.group(1), 'tags': atags})
                     rec.setdefault('awaits', []).append('await%s' % ma.group(1))
                 elif mm:
                     out.add(hint_text[mm.group(1)].rstrip(), {'fn': fid, 'part': 'hint', 'clause': mm.group(1)})
